@@ -19,6 +19,88 @@ import (
 // function, with a may-summary for "writes the epoch state" that does not descend into other owners
 // (they are checked on their own).
 
+// c08persistedRecord: the validators variable that the epoch-state record handed to SetEpochState holds
+// at the call w of f (record projection, for a write that is spelled in place instead of in a helper
+// that takes the validators as a parameter): the record is built locally (c09structAt: literal and/or
+// field stores) or is a local copy of the stored state (`es := *store.GetEpochState()`) whose Validators
+// field is stored exactly once, with a validators variable, on every path to the call, and neither the
+// record nor that variable is assigned between the store and the call. nil when this is not decided.
+func c08persistedRecord(f *core.FuncInfo, w *core.CallSite, isValidators func(types.Type) bool) *types.Var {
+	const fld = "abft.EpochState.Validators"
+	if f == nil || w == nil || len(w.Call.Args) != 1 || w.Pt.B == nil {
+		return nil
+	}
+	arg := w.Call.Args[0]
+	if fields, _, built := c09structAt(f, arg, w.Pt); built {
+		var out *types.Var
+		for _, fv := range fields[fld] {
+			if fv.Unknown || fv.Zero || fv.E == nil {
+				return nil
+			}
+			v := varOf(f, fv.E)
+			if v == nil || !isValidators(v.Type()) || (out != nil && out != v) {
+				return nil
+			}
+			out = v
+		}
+		return out
+	}
+	e := ast.Unparen(arg)
+	if u, ok := e.(*ast.UnaryExpr); ok && u.Op == token.AND {
+		e = ast.Unparen(u.X)
+	}
+	x := varOfRaw(f, e)
+	if x == nil || x.IsField() || f.Body == nil || !(f.Body.Pos() <= x.Pos() && x.Pos() < f.Body.End()) {
+		return nil
+	}
+	var stores []assignment
+	for _, a := range assignments(f) {
+		sel, ok := ast.Unparen(a.LHS).(*ast.SelectorExpr)
+		if !ok || varOfRaw(f, sel.X) != x || fieldNameOf(f, sel) != fld {
+			continue
+		}
+		stores = append(stores, a)
+	}
+	if len(stores) != 1 {
+		return nil
+	}
+	s := stores[0]
+	if s.RHS == nil || s.Tok != token.ASSIGN || s.Pt.B == nil {
+		return nil
+	}
+	v := varOf(f, s.RHS)
+	if v == nil || v.IsField() || !isValidators(v.Type()) {
+		return nil
+	}
+	if ok, _ := f.MustPassBefore([]core.Point{s.Pt}, w.Pt); !ok {
+		return nil
+	}
+	for _, y := range []*types.Var{x, v} {
+		for _, a := range assignsToVar(f, y) {
+			if f.CanReach(s.Pt, a.Pt) && f.CanReach(a.Pt, w.Pt) {
+				return nil
+			}
+		}
+	}
+	// the record is not written by a nested literal
+	for _, l := range allLits(f) {
+		for _, a := range assignments(l) {
+			root := ast.Unparen(a.LHS)
+			for {
+				if sx, ok := root.(*ast.SelectorExpr); ok {
+					root = ast.Unparen(sx.X)
+					continue
+				}
+				break
+			}
+			if varOfRaw(l, root) == x {
+				return nil
+			}
+		}
+	}
+	return v
+}
+
 func c08Election(c *core.Ctx) {
 	c.Clause("C08.election", func() {
 		p := c.P
@@ -142,6 +224,9 @@ func c08Election(c *core.Ctx) {
 					return v
 				}
 			}
+			if w.Name == setES {
+				return c08persistedRecord(g, w, isValidators)
+			}
 			return nil
 		}
 		// persistedByCallers: every call of f passes as argument k a variable that the caller has persisted
@@ -220,6 +305,10 @@ func c08Election(c *core.Ctx) {
 					if v := varOf(f, a); v != nil && isValidators(v.Type()) {
 						return v
 					}
+				}
+				if w.Name == setES {
+					// the write is spelled in place: the validators are a field of the record handed over
+					return c08persistedRecord(f, w, isValidators)
 				}
 				return nil
 			}
